@@ -4,7 +4,7 @@ import OpusModel.SilkCoreFrame
   every output sample is an `opus_int16`, list lengths of the outputs and of the carried state.
 -/
 namespace Opus.SilkCoreProofs
-open Opus Opus.SilkParams Opus.SilkCore Opus.Gen
+open Opus Opus.SilkParams Opus.SilkCore Opus.Gen Opus.Frozen
 
 /-- `opus_int16` range. -/
 def I16 (x : Int) : Prop := -32768 ≤ x ∧ x ≤ 32767
